@@ -666,7 +666,8 @@ func runShape(s *Session) []map[string]interface{} {
 			}
 			toks[i] = t
 		}
-		names := []string{"7", "rule1", "12345", "x y", "-3", "9223372036854775807"}
+		names := []string{"7", "rule1", "12345", "x y", "-3", "9223372036854775807", "12abc", "2nd", "3.5", "7-eleven", "1e3",
+			"1_000", "-3x", "007", " 100 ", "+5", "0x10", "9223372036854775808", "10 20"}
 		curName = names[r.Intn(len(names))]
 		curDesc = []string{"some desc", "d", "a"}[r.Intn(3)]
 		curSal = []int64{0, 5, -7, 1000000}[r.Intn(4)]
